@@ -2,6 +2,8 @@
    Property theorems only; proofs are in Proofs/Evmutil.v. *)
 From Kava Require Import Base.Prelude Model.Erc20 Model.Evmutil Proofs.Evmutil.
 
+(** * Backing, for all histories *)
+
 (* Every history of the four conversion messages (or direct keeper calls),
    ERC20 transfers and mints, bank sends and parameter changes, none of them
    signed by the module account, preserves the module invariant. *)
@@ -28,3 +30,284 @@ Theorem C10_evm_native_backed :
     <= ebal (erc (run e s ops) c) (macc e).
 Proof. exact evm_native_backed. Qed.
 Print Assumptions C10_evm_native_backed.
+
+(* Bank balances and ERC20 balances stay non-negative and total supplies below
+   2^256 (the range hypothesis of the round trips is reachable-state closed). *)
+Theorem C10_balances_in_range_all_histories :
+  forall e ops s, nonneg s -> Forall (op_wf e) ops -> nonneg (run e s ops).
+Proof. intros e ops s. exact (run_nonneg e ops s). Qed.
+Print Assumptions C10_balances_in_range_all_histories.
+
+(** * A conversion debits the initiator and credits the receiver the same value;
+      nothing else changes (dlt b x = if b then x else 0) *)
+
+(* ConvertCosmosCoinToERC20: x coins initiator -> module account, x wrapper
+   tokens minted to the receiver (wrapper deployed and registered on first use). *)
+Theorem C10_conversion_value_cosmos_to_erc20 :
+  forall e s i r d x s',
+  conv_cosmos_to_erc20 e s i r d x = Ok s' tt -> 0 <= x < U256 ->
+  allowed s d = true /\ (x = 0 \/ x <= bal s i d) /\
+  exists c, reg s' d = Some c /\
+    ((reg s d = Some c /\ reg s' = reg s /\ next s' = next s) \/
+     (reg s d = None /\ c = next s /\ reg s' = upd (reg s) d (Some c) /\ next s' = S (next s))) /\
+    etot (wl s d) + x < U256 /\
+    (forall a, ebal (erc s' c) a = ebal (wl s d) a + dlt (Nat.eqb a r) x) /\
+    etot (erc s' c) = etot (wl s d) + x /\
+    (forall c', c' <> c -> erc s' c' = erc s c') /\
+    (forall a d', bal s' a d' = bal s a d' - dlt (Nat.eqb a i && Nat.eqb d' d) x
+                                          + dlt (Nat.eqb a (macc e) && Nat.eqb d' d) x) /\
+    sup s' = sup s /\ same_params s s'.
+Proof. exact conv_cosmos_to_erc20_spec. Qed.
+Print Assumptions C10_conversion_value_cosmos_to_erc20.
+
+(* ConvertCosmosCoinFromERC20: x wrapper tokens of the initiator burned, x coins
+   module account -> receiver. *)
+Theorem C10_conversion_value_cosmos_from_erc20 :
+  forall e s i r d x s',
+  conv_cosmos_from_erc20 e s i r d x = Ok s' tt -> 0 <= x < U256 ->
+  exists c, reg s d = Some c /\ blocked e r = false /\ x <= ebal (erc s c) i /\
+    (x = 0 \/ x <= bal s (macc e) d) /\
+    (forall a, ebal (erc s' c) a = ebal (erc s c) a - dlt (Nat.eqb a i) x) /\
+    etot (erc s' c) = etot (erc s c) - x /\
+    (forall c', c' <> c -> erc s' c' = erc s c') /\
+    (forall a d', bal s' a d' = bal s a d' - dlt (Nat.eqb a (macc e) && Nat.eqb d' d) x
+                                          + dlt (Nat.eqb a r && Nat.eqb d' d) x) /\
+    sup s' = sup s /\ reg s' = reg s /\ next s' = next s /\ same_params s s'.
+Proof. exact conv_cosmos_from_erc20_spec. Qed.
+Print Assumptions C10_conversion_value_cosmos_from_erc20.
+
+(* ConvertERC20ToCoin: lock = mint * k tokens initiator -> module EVM address,
+   mint coins minted to the receiver (k = 10^10, mint = floor(x/10^10) for bep3; else k = 1, mint = x). *)
+Theorem C10_conversion_value_erc20_to_coin :
+  forall e s i r c x s',
+  conv_erc20_to_coin e s i r c x = Ok s' tt ->
+  let d := pair_denom e c in
+  let mint := if is_bep3 e d then x / K10 else x in
+  let lock := mint * kf e d in
+  (c < npair e)%nat /\ enabled s c = true /\ blocked e r = false /\
+  (is_bep3 e d = true -> mint <> 0) /\
+  0 <= lock < U256 /\ lock <= ebal (erc s c) i /\
+  (forall a, ebal (erc s' c) a = ebal (erc s c) a - dlt (Nat.eqb a i) lock + dlt (Nat.eqb a (macc e)) lock) /\
+  etot (erc s' c) = etot (erc s c) /\
+  (forall c', c' <> c -> erc s' c' = erc s c') /\
+  (forall a d', bal s' a d' = bal s a d' + dlt (Nat.eqb a r && Nat.eqb d' d) mint) /\
+  (forall d', sup s' d' = sup s d' + dlt (Nat.eqb d' d) mint) /\
+  reg s' = reg s /\ next s' = next s /\ same_params s s'.
+Proof. exact conv_erc20_to_coin_spec. Qed.
+Print Assumptions C10_conversion_value_erc20_to_coin.
+
+(* ConvertCoinToERC20: x coins of the initiator burned, x * k tokens module EVM
+   address -> receiver. *)
+Theorem C10_conversion_value_coin_to_erc20 :
+  forall e s i r d x s',
+  conv_coin_to_erc20 e s i r d x = Ok s' tt -> i <> macc e ->
+  exists c, pair_of_denom e s d = Some c /\
+  let unlock := x * kf e d in
+  (x = 0 \/ x <= bal s i d) /\
+  0 <= unlock < U256 /\ unlock <= ebal (erc s c) (macc e) /\
+  (forall a, ebal (erc s' c) a = ebal (erc s c) a - dlt (Nat.eqb a (macc e)) unlock + dlt (Nat.eqb a r) unlock) /\
+  etot (erc s' c) = etot (erc s c) /\
+  (forall c', c' <> c -> erc s' c' = erc s c') /\
+  (forall a d', bal s' a d' = bal s a d' - dlt (Nat.eqb a i && Nat.eqb d' d) x) /\
+  (forall d', sup s' d' = sup s d' - dlt (Nat.eqb d' d) x) /\
+  reg s' = reg s /\ next s' = next s /\ same_params s s'.
+Proof. exact conv_coin_to_erc20_spec. Qed.
+Print Assumptions C10_conversion_value_coin_to_erc20.
+
+(** * A round trip restores the original balances (all four directions) *)
+
+Theorem C10_round_trip_cosmos :
+  forall e s i r d x s1,
+  env_wf e -> nonneg s -> 0 <= x < U256 -> blocked e i = false ->
+  conv_cosmos_to_erc20 e s i r d x = Ok s1 tt ->
+  exists s2, conv_cosmos_from_erc20 e s1 r i d x = Ok s2 tt /\
+    (forall a d', bal s2 a d' = bal s a d') /\ sup s2 = sup s /\
+    (forall a, ebal (wl s2 d) a = ebal (wl s d) a) /\ etot (wl s2 d) = etot (wl s d) /\
+    (forall c', reg s2 d <> Some c' -> erc s2 c' = erc s c').
+Proof. exact round_trip_cosmos. Qed.
+Print Assumptions C10_round_trip_cosmos.
+
+Theorem C10_round_trip_cosmos_back :
+  forall e s i r d x s1,
+  env_wf e -> nonneg s -> 0 <= x < U256 -> allowed s d = true ->
+  conv_cosmos_from_erc20 e s i r d x = Ok s1 tt ->
+  exists s2, conv_cosmos_to_erc20 e s1 r i d x = Ok s2 tt /\
+    (forall a d', bal s2 a d' = bal s a d') /\ sup s2 = sup s /\
+    (forall c a, ebal (erc s2 c) a = ebal (erc s c) a) /\
+    (forall c, etot (erc s2 c) = etot (erc s c)) /\
+    reg s2 = reg s /\ next s2 = next s.
+Proof. exact round_trip_cosmos_back. Qed.
+Print Assumptions C10_round_trip_cosmos_back.
+
+Theorem C10_round_trip_evm :
+  forall e s i r c x s1,
+  env_wf e -> nonneg s -> 0 <= x -> i <> macc e ->
+  conv_erc20_to_coin e s i r c x = Ok s1 tt ->
+  let d := pair_denom e c in
+  let mint := if is_bep3 e d then x / K10 else x in
+  exists s2, conv_coin_to_erc20 e s1 r i d mint = Ok s2 tt /\
+    (forall a d', bal s2 a d' = bal s a d') /\ (forall d', sup s2 d' = sup s d') /\
+    (forall c' a, ebal (erc s2 c') a = ebal (erc s c') a) /\
+    (forall c', etot (erc s2 c') = etot (erc s c')) /\
+    reg s2 = reg s /\ next s2 = next s.
+Proof. exact round_trip_evm. Qed.
+Print Assumptions C10_round_trip_evm.
+
+Theorem C10_round_trip_evm_back :
+  forall e s i r d x s1,
+  env_wf e -> nonneg s -> 0 <= x -> (is_bep3 e d = true -> 0 < x) ->
+  i <> macc e -> r <> macc e -> blocked e i = false ->
+  conv_coin_to_erc20 e s i r d x = Ok s1 tt ->
+  exists c s2, pair_of_denom e s d = Some c /\
+    conv_erc20_to_coin e s1 r i c (x * kf e d) = Ok s2 tt /\
+    (forall a d', bal s2 a d' = bal s a d') /\ (forall d', sup s2 d' = sup s d') /\
+    (forall c' a, ebal (erc s2 c') a = ebal (erc s c') a) /\
+    (forall c', etot (erc s2 c') = etot (erc s c')) /\
+    reg s2 = reg s /\ next s2 = next s.
+Proof. exact round_trip_evm_back. Qed.
+Print Assumptions C10_round_trip_evm_back.
+
+(** * ERC20 dust smaller than one sdk unit is never taken from the user *)
+
+Theorem C10_dust_kept :
+  forall e s i r c x s',
+  is_bep3 e (pair_denom e c) = true -> i <> macc e ->
+  conv_erc20_to_coin e s i r c x = Ok s' tt ->
+  let locked := x / K10 * K10 in
+  ebal (erc s c) i - ebal (erc s' c) i = locked /\
+  ebal (erc s' c) (macc e) - ebal (erc s c) (macc e) = locked /\
+  0 <= x - locked < K10 /\
+  bal s' r (pair_denom e c) = bal s r (pair_denom e c) + x / K10.
+Proof. exact dust_kept. Qed.
+Print Assumptions C10_dust_kept.
+
+Theorem C10_dust_only_refused :
+  forall e s i r c x,
+  is_bep3 e (pair_denom e c) = true -> 0 <= x < K10 ->
+  conv_erc20_to_coin e s i r c x = Err.
+Proof. exact dust_only_refused. Qed.
+Print Assumptions C10_dust_only_refused.
+
+(** * A failed or disabled conversion changes nothing on either side *)
+
+Theorem C10_failed_changes_nothing :
+  forall e s o, (forall s' u, step e s o <> Ok s' u) -> step' e s o = s.
+Proof. exact step'_failed. Qed.
+Print Assumptions C10_failed_changes_nothing.
+
+Theorem C10_disabled_pair_refused_erc20_to_coin :
+  forall e s i r c x, pair_enabled e s c = false -> conv_erc20_to_coin e s i r c x = Err.
+Proof. exact disabled_pair_refused_erc20_to_coin. Qed.
+Print Assumptions C10_disabled_pair_refused_erc20_to_coin.
+
+Theorem C10_disabled_pair_refused_coin_to_erc20 :
+  forall e s i r d x,
+  (forall c, (c < npair e)%nat -> pair_denom e c = d -> enabled s c = false) ->
+  conv_coin_to_erc20 e s i r d x = Err.
+Proof. exact disabled_pair_refused_coin_to_erc20. Qed.
+Print Assumptions C10_disabled_pair_refused_coin_to_erc20.
+
+Theorem C10_not_allowed_denom_refused :
+  forall e s i r d x, allowed s d = false -> conv_cosmos_to_erc20 e s i r d x = Err.
+Proof. exact not_allowed_refused. Qed.
+Print Assumptions C10_not_allowed_denom_refused.
+
+Theorem C10_unregistered_denom_refused :
+  forall e s i r d x, reg s d = None -> conv_cosmos_from_erc20 e s i r d x = Err.
+Proof. exact unregistered_refused. Qed.
+Print Assumptions C10_unregistered_denom_refused.
+
+(* amounts above the initiator's balance *)
+Theorem C10_overdraw_refused_coin_to_erc20 :
+  forall e s i r d x s',
+  i <> macc e -> bal s i d < x -> 0 < x -> conv_coin_to_erc20 e s i r d x <> Ok s' tt.
+Proof. exact overdraw_refused_coin_to_erc20. Qed.
+Print Assumptions C10_overdraw_refused_coin_to_erc20.
+
+Theorem C10_overdraw_refused_erc20_to_coin :
+  forall e s i r c x s',
+  let d := pair_denom e c in
+  let lock := (if is_bep3 e d then x / K10 else x) * kf e d in
+  ebal (erc s c) i < lock -> conv_erc20_to_coin e s i r c x <> Ok s' tt.
+Proof. exact overdraw_refused_erc20_to_coin. Qed.
+Print Assumptions C10_overdraw_refused_erc20_to_coin.
+
+Theorem C10_overdraw_refused_cosmos_to_erc20 :
+  forall e s i r d x s',
+  0 < x < U256 -> bal s i d < x -> conv_cosmos_to_erc20 e s i r d x <> Ok s' tt.
+Proof. exact overdraw_refused_cosmos_to_erc20. Qed.
+Print Assumptions C10_overdraw_refused_cosmos_to_erc20.
+
+Theorem C10_overdraw_refused_cosmos_from_erc20 :
+  forall e s i r d x c,
+  reg s d = Some c -> ebal (erc s c) i < x -> conv_cosmos_from_erc20 e s i r d x = Err.
+Proof. exact overdraw_refused_cosmos_from_erc20. Qed.
+Print Assumptions C10_overdraw_refused_cosmos_from_erc20.
+
+(* coins are never paid out to a blocked address (module accounts) *)
+Theorem C10_blocked_recipient_refused :
+  forall e s i r x, blocked e r = true ->
+  (forall c s', conv_erc20_to_coin e s i r c x <> Ok s' tt) /\
+  (forall d s', conv_cosmos_from_erc20 e s i r d x <> Ok s' tt).
+Proof. exact blocked_recipient_refused. Qed.
+Print Assumptions C10_blocked_recipient_refused.
+
+(* the balance-delta check: unlocking to the module's own EVM address (coins
+   burned, nobody credited) is refused *)
+Theorem C10_unlock_to_module_refused :
+  forall e s i d x s',
+  i <> macc e -> 0 < x -> conv_coin_to_erc20 e s i (macc e) d x <> Ok s' tt.
+Proof. exact unlock_to_module_refused. Qed.
+Print Assumptions C10_unlock_to_module_refused.
+
+Theorem C10_no_panic : forall e s o, step e s o <> Panic.
+Proof. exact step_no_panic. Qed.
+Print Assumptions C10_no_panic.
+
+(** * Non-vacuity *)
+
+(* accounts 0,1 users, 2 the module (blocked); pair contract 0 <-> denom 0 (bep3),
+   pair contract 1 <-> denom 1; denom 2 is an allowed cosmos coin *)
+Definition ex_env : env := mk_env 3 3 2 [false; false; true] [0; 1]%nat [true; false; false].
+Definition ex_state : state :=
+  mk_state [[0; 0; 500]; [0; 0; 40]; [0; 0; 0]] [0; 0; 540]
+           [(30000000007, [30000000007; 0; 0]); (90, [50; 40; 0])] [] [true; true] [false; false; true].
+
+Example C10_hypotheses_satisfiable : env_wf ex_env /\ Inv ex_env ex_state /\ nonneg ex_state.
+Proof.
+  split; [|split].
+  - split; [reflexivity|]. intros c c' Hc Hc' H. cbn in Hc, Hc'.
+    destruct c as [|[|c]], c' as [|[|c']]; try lia; cbn in H; try reflexivity; discriminate.
+  - unfold Inv. split; [cbn; lia|]. split; [intros d c H; discriminate|].
+    split; [intros d d' c H; discriminate|]. split.
+    + intros d. cbn. destruct d as [|[|[|[|d]]]]; reflexivity.
+    + intros c Hc. cbn in Hc. destruct c as [|[|c]]; [vm_compute; discriminate|vm_compute; discriminate|lia].
+  - split; [|split].
+    + intros a d. destruct a as [|[|[|[|a]]]], d as [|[|[|[|d]]]]; vm_compute; discriminate.
+    + intros c a. destruct c as [|[|[|c]]], a as [|[|[|[|a]]]]; vm_compute; discriminate.
+    + intros c. destruct c as [|[|[|c]]]; vm_compute; reflexivity.
+Qed.
+
+(* a history on that state: a bep3 conversion with dust, the way back, a
+   cosmos-coin conversion that deploys the wrapper, a refused dust-only
+   conversion and a refused conversion of a disabled pair *)
+Example C10_history_nonvacuous :
+  let ops := [ConvERC20ToCoin false 0 1 0 25000000003;
+              ConvCosmosToERC20 false 0 1 2 120;
+              ConvCoinToERC20 false 1 0 0 1;
+              ConvERC20ToCoin false 0 1 0 9999999999;
+              SetParams [true; false] [false; false; true];
+              ConvERC20ToCoin false 1 0 1 10]%nat in
+  let s := run ex_env ex_state ops in
+  Forall (op_wf ex_env) ops /\
+  map (fun o => class_of (step ex_env ex_state o)) [nth 0 ops (SetParams [] [])] = [ROk] /\
+  (ebal (erc s 0) 0, ebal (erc s 0) 2, bal s 1 0, sup s 0)%nat = (20000000007, 10000000000, 1, 1) /\
+  reg s 2%nat = Some 2%nat /\ (etot (erc s 2), bal s 2 2, ebal (erc s 2) 1)%nat = (120, 120, 120) /\
+  step ex_env s (ConvERC20ToCoin false 0 1 0 9999999999) = Err /\
+  step ex_env s (ConvERC20ToCoin false 1 0 1 10) = Err /\
+  inv_b ex_env s = true.
+Proof.
+  cbv zeta. split.
+  - repeat constructor; unfold op_wf; cbn; discriminate.
+  - repeat split; vm_compute; reflexivity.
+Qed.
